@@ -66,7 +66,7 @@ func c33GenInnerProgram(rt *rapid.T) []byte {
 func c33Gen(rt *rapid.T) c33Input {
 	var in c33Input
 	nid := func(label string) uint64 {
-		return rapid.SampledFrom([]uint64{0, 0, 0, 1, 1, 2, 3, 7, 1 << 32, ^uint64(0)}).Draw(rt, label)
+		return rapid.SampledFrom([]uint64{0, 0, 0, 0, 0, 0, 0, 0, 1, 1, 1, 2, 3, 7, 1 << 32, ^uint64(0)}).Draw(rt, label)
 	}
 	innerAddr := func(label string) uint64 {
 		p := rapid.SampledFrom([]uint64{15, 16, 16, 17, 18, 32, 0xFFFFF}).Draw(rt, label+"p")
@@ -93,19 +93,29 @@ func c33Gen(rt *rapid.T) c33Input {
 			op.C = rapid.SampledFrom([]uint64{0, 0, 0, 1, 5, 13, 1000, 1 << 32}).Draw(rt, "ipc")
 		case 1:
 			op.N = nid("n")
-			op.A = rapid.SampledFrom([]uint64{16, 16, 16, 17, 15, 0, 32, 0xFFFFE, 0xFFFFF, 0x100000, 1 << 32, ^uint64(0)}).Draw(rt, "p")
-			op.B = rapid.SampledFrom([]uint64{0, 1, 1, 2, 3, 17, 0xFFFFF, 1 << 20, ^uint64(0)}).Draw(rt, "c")
-			op.C = rapid.SampledFrom([]uint64{0, 1, 2, 2, 2, 3, 4, 5, 255, 1 << 32}).Draw(rt, "r")
+			op.A = rapid.SampledFrom([]uint64{16, 16, 16, 16, 16, 16, 17, 17, 15, 0, 32, 0xFFFFE, 0xFFFFF, 0x100000, 1 << 32, ^uint64(0)}).Draw(rt, "p")
+			op.B = rapid.SampledFrom([]uint64{0, 1, 1, 1, 1, 2, 2, 3, 17, 0xFFFFF, 1 << 20, ^uint64(0)}).Draw(rt, "c")
+			op.C = rapid.SampledFrom([]uint64{0, 0, 1, 1, 2, 2, 2, 3, 3, 3, 4, 4, 4, 5, 255, 1 << 32}).Draw(rt, "r")
 		case 2: // poke(n, s outer, o inner, z)
 			op.N = nid("n")
 			op.A = outerAddr("s", false)
 			op.B = innerAddr("o")
 			op.C = size("z")
+			if rapid.IntRange(0, 2).Draw(rt, "pokeeasy") != 0 {
+				op.A = c33BlobAddr + ZP + uint64(rapid.IntRange(0, 64).Draw(rt, "pokes"))
+				op.B = 16*ZP + uint64(rapid.IntRange(0, 16).Draw(rt, "pokeo"))
+				op.C = uint64(rapid.IntRange(1, 32).Draw(rt, "pokez"))
+			}
 		case 3: // peek(n, o outer, s inner, z)
 			op.N = nid("n")
 			op.A = outerAddr("o", true)
 			op.B = innerAddr("s")
 			op.C = size("z")
+			if rapid.IntRange(0, 2).Draw(rt, "peekeasy") != 0 {
+				op.A = c33BlockAddr + 512
+				op.B = 16*ZP + uint64(rapid.IntRange(0, 16).Draw(rt, "peeko"))
+				op.C = uint64(rapid.IntRange(1, 32).Draw(rt, "peekz"))
+			}
 		case 4:
 			op.N = nid("n")
 			op.A = rapid.SampledFrom([]uint64{c33BlockAddr, c33BlockAddr, c33BlockAddr, c33BlockAddr + ZP - 50, 36*ZP - 100, c33ROAddr, c33BadAddr}).Draw(rt, "blk")
@@ -138,7 +148,7 @@ func c33Gen(rt *rapid.T) c33Input {
 		iv.Gas = rapid.SampledFrom([]uint64{1, 2, 3, 4, 5, 100}).Draw(rt, "ivg")
 		in.Ops = append(in.Ops, iv)
 	}
-	n := rapid.IntRange(1, 20).Draw(rt, "nops")
+	n := rapid.IntRange(1, 24).Draw(rt, "nops")
 	for i := 0; i < n; i++ {
 		in.Ops = append(in.Ops, mk(rapid.SampledFrom([]int{0, 1, 1, 2, 3, 3, 4, 4, 4, 5}).Draw(rt, "kind")))
 	}
